@@ -2043,13 +2043,25 @@ def _run_with_keys(c, keys, fn, quit_at_prompt, poll_cap=8000):
 
 
 def _note_line_clear(c, keys):
-    """Input shapes of known classes of line editor defects (they go into the signature)."""
-    if c.tm.win_active and ('\x1b' in keys or '\x05' in keys):
-        # the line editor clears a logical line (Esc, Ctrl+End) while a VIEW PRINT window is set
-        # (the line may reach below the window)
-        c.lineclear_in_window = ':after-line-clear-with-view-print-active'
+    """
+    Input shapes of a known family of line editor defects (they go into the signature): the editor
+    scrolls the rows of a logical line that lie outside the scroll area.
+    """
+    kinds = []
+    if '\x1b' in keys or '\x05' in keys:
+        kinds.append('clear')       # Esc, Ctrl+End: clear the logical line
+    if '\x7f' in keys or '\x08' in keys:
+        kinds.append('delete')      # Del, Backspace: pull the rest of the logical line up
+    if '\n' in keys:
+        kinds.append('feed')        # Ctrl+J: push the rest of the logical line down
+    if kinds and c.tm.win_active:
+        # ... while a VIEW PRINT window is set (the logical line may reach below the window)
+        if kinds == ['clear']:
+            c.lineclear_in_window = ':after-line-clear-with-view-print-active'
+        else:
+            c.lineclear_in_window = ':after-line-editor-%s-with-view-print-active' % '+'.join(kinds)
     if '\n' in keys and c.tm.h is not None and getattr(c, 'last_cursor', (0, 0))[0] > c.tm.bottom:
-        # line feed (Ctrl+J) in the line editor with the cursor below the scroll area (row 25)
+        # line feed with the cursor below the scroll area (row 25)
         c.lineclear_in_window = ':after-line-feed-below-the-scroll-area'
 
 
